@@ -16,7 +16,7 @@ for patch in sys.argv[2:]:
         if r.returncode:
             print("PATCH-DOES-NOT-APPLY", patch); continue
         try:
-            fd, stamp, _ = facts.ensure_facts(repo=repo2, tag="-selftest-%d" % os.getpid())
+            fd, stamp, _ = facts.ensure_facts(repo=repo2, tag="-selftest")
         except facts.BuildFailed as e:
             print("BUILD-FAILED", str(e)[-1500:]); continue
         for pid in pids:
@@ -33,6 +33,5 @@ for patch in sys.argv[2:]:
             print("%s on %s: %s" % (pid, os.path.basename(patch), "FIRES" if bad else "silent"))
             for o in bad[:6]:
                 print("   ", o["key"], "|", o["detail"][:260], o["site"] or "")
-        shutil.rmtree(fd, ignore_errors=True)
     finally:
         shutil.rmtree(scratch, ignore_errors=True)
